@@ -21,7 +21,8 @@ from ..core import Check, VERIF
 
 THEOREMS = {n: "Props.C07" for n in [
     "C07_no_double_handout", "C07_rejects_foreign", "C07_rejects_unmapped", "C07_no_internal_error",
-    "C07_cover_is_partition", "C07_partition_partial", "C07_no_internal_error_refuted_unfixed"]}
+    "C07_partition", "C07_partition_stays", "C07_cover_is_partition", "C07_partition_certificate_sound",
+    "C07_no_internal_error_refuted_unfixed"]}
 
 PREAMBLE_HEAD = """From Coq Require Import PrimFloat List. Import ListNotations.
 From AV Require Import Base.Prelude Base.FloatUtil Model.Integrator Run.IntegratorRun.
@@ -428,7 +429,7 @@ def run(chk: Check) -> int:
             f"oracle failures {len(chk.failures)}; totals {tot}")
     return chk.finish(
         rule="histories generated by driving the real IntegratorLearner like a parallel runner (modes runner/batch/deep/holdback, "
-             "ask sizes 1..50, 1..16 tasks, permuted/partial/delayed delivery, occasional foreign tells) on 13 integrand families "
+             "ask sizes 1..50, 1..16 tasks, permuted/partial/delayed delivery, occasional foreign tells) on 14 integrand families "
              "(smooth, peaked, step, kink, sqrt/inverse-sqrt singular, non-finite at isolated nodes, isolated deviations, divergent), "
              "tol 1e-10..1e-3, 8 bounds, max_ivals 3..1000; non-trivial = at least one tell that completed two or more "
              "(interval, depth) rules at once and at least one split; distinct by (integrand, bounds, op list)",
